@@ -9,9 +9,11 @@ import (
 	"math"
 	"os"
 	"regexp"
+	"runtime"
 	"sort"
 	"strings"
 	"sync"
+	"sync/atomic"
 	"testing"
 	"time"
 
@@ -31,33 +33,35 @@ func TestMain(m *testing.M) { vk.Main(m) }
 // Class names carry the source line of the panic site, so an entry also goes stale (= is reported again)
 // when the file above it changes.
 var knownOpen = map[string]bool{
-	"arrayOperator@compiler.go: reflect: call of unknown method on wrong-kind Value": true,
-	"evalAccessIndex@compiler.go: hash of unhashable type T": true,
-	"evalAccessIndex@compiler.go: invalid memory address or nil pointer dereference": true,
-	"evalAccessIndex@compiler.go: reflect.Value.MapIndex: value of type T is not assignable to type U": true,
-	"evalAccessIndex@compiler.go: reflect: index out of range": true,
-	"evalCallExpression@compiler.go: reflect.Value.Call: call of nil function": true,
+	"arrayOperator@compiler.go: reflect: call of unknown method on wrong-kind Value":                        true,
+	"evalAccessIndex@compiler.go: hash of unhashable type T":                                                true,
+	"evalAccessIndex@compiler.go: invalid memory address or nil pointer dereference":                        true,
+	"evalAccessIndex@compiler.go: reflect.Value.MapIndex: value of type T is not assignable to type U":      true,
+	"evalAccessIndex@compiler.go: reflect: index out of range [negative or extreme operand]":                true,
+	"evalAccessIndex@compiler.go: reflect: index out of range [random program]":                             true,
+	"evalCallExpression@compiler.go: reflect.Value.Call: call of nil function":                              true,
 	"evalCallExpression@compiler.go: reflect: call of reflect.Value.MethodByName on the zero reflect.Value": true,
-	"evalCallExpression@compiler.go: value method called using nil pointer": true,
-	"evalUpdateIndex@compiler.go: assignment to entry in nil map": true,
-	"evalUpdateIndex@compiler.go: hash of unhashable type T": true,
-	"evalUpdateIndex@compiler.go: reflect.Value.SetMapIndex: value of type T is not assignable to type U": true,
-	"evalUpdateIndex@compiler.go: reflect: call of reflect.Value.Set on the zero reflect.Value": true,
-	"evalUpdateIndex@compiler.go: reflect: call of reflect.Value.SetMapIndex on the zero reflect.Value": true,
-	"evalUpdateIndex@compiler.go: reflect: call of reflect.Value.Type on the zero reflect.Value": true,
-	"evalUpdateIndex@compiler.go: reflect: index out of range": true,
-	"evalUpdateIndex@compiler.go: reflect: reflect.Value.Set using unaddressable value": true,
-	"evalUserFunction@compiler.go: index out of range [N] with length N": true,
-	"helpers/content.ContentFor@for.go: invalid memory address or nil pointer dereference": true,
-	"helpers/content.ContentOf@of.go: invalid memory address or nil pointer dereference": true,
-	"helpers/escapes.HTMLEscape@html.go: invalid memory address or nil pointer dereference": true,
-	"helpers/meta.Len@len.go: reflect: call of reflect.Value.Len on the zero reflect.Value": true,
-	"helpers/meta.Len@len.go: reflect: call of reflect.Value.Len on wrong-kind Value": true,
-	"helpers/paths.PathFor@path_for.go: reflect: call of reflect.Value.Type on the zero reflect.Value": true,
-	"helpers/text.Truncate@truncate.go: assignment to entry in nil map": true,
-	"helpers/text.Truncate@truncate.go: interface conversion: interface is T, not U": true,
-	"write@compiler.go: invalid memory address or nil pointer dereference": true,
-	"write@compiler.go: value method called using nil pointer": true,
+	"evalCallExpression@compiler.go: value method called using nil pointer":                                 true,
+	"evalUpdateIndex@compiler.go: assignment to entry in nil map":                                           true,
+	"evalUpdateIndex@compiler.go: hash of unhashable type T":                                                true,
+	"evalUpdateIndex@compiler.go: reflect.Value.SetMapIndex: value of type T is not assignable to type U":   true,
+	"evalUpdateIndex@compiler.go: reflect: call of reflect.Value.Set on the zero reflect.Value":             true,
+	"evalUpdateIndex@compiler.go: reflect: call of reflect.Value.SetMapIndex on the zero reflect.Value":     true,
+	"evalUpdateIndex@compiler.go: reflect: call of reflect.Value.Type on the zero reflect.Value":            true,
+	"evalUpdateIndex@compiler.go: reflect: index out of range [negative or extreme operand]":                true,
+	"evalUpdateIndex@compiler.go: reflect: index out of range [random program]":                             true,
+	"evalUpdateIndex@compiler.go: reflect: reflect.Value.Set using unaddressable value":                     true,
+	"evalUserFunction@compiler.go: index out of range [N] with length N":                                    true,
+	"helpers/content.ContentFor@for.go: invalid memory address or nil pointer dereference":                  true,
+	"helpers/content.ContentOf@of.go: invalid memory address or nil pointer dereference":                    true,
+	"helpers/escapes.HTMLEscape@html.go: invalid memory address or nil pointer dereference":                 true,
+	"helpers/meta.Len@len.go: reflect: call of reflect.Value.Len on the zero reflect.Value":                 true,
+	"helpers/meta.Len@len.go: reflect: call of reflect.Value.Len on wrong-kind Value":                       true,
+	"helpers/paths.PathFor@path_for.go: reflect: call of reflect.Value.Type on the zero reflect.Value":      true,
+	"helpers/text.Truncate@truncate.go: assignment to entry in nil map":                                     true,
+	"helpers/text.Truncate@truncate.go: interface conversion: interface is T, not U":                        true,
+	"write@compiler.go: invalid memory address or nil pointer dereference":                                  true,
+	"write@compiler.go: value method called using nil pointer":                                              true,
 }
 
 // ---- the value pool -----------------------------------------------------------------------------------
@@ -429,6 +433,18 @@ func site(res vk.Res) string {
 	return s
 }
 
+func indexTag(c Case) string {
+	if c.Matrix == "random" {
+		return " [random program]"
+	}
+	for _, v := range c.Vars {
+		if p := byName[v]; p != nil && p.Odd && (p.Kind == "int" || p.Kind == "int64" || p.Kind == "float") {
+			return " [negative or extreme operand]"
+		}
+	}
+	return " [ordinary operands]"
+}
+
 var reLine = regexp.MustCompile(`:\d+$`)
 
 // siteKey is site without the line number: class names stay valid while the file is edited elsewhere.
@@ -580,6 +596,11 @@ func check(r *vk.Run, c Case, nt bool, sub string) *vk.Fail {
 	switch {
 	case res.Panicked():
 		class := c.Matrix + "/" + siteKey(res) + ": " + msgKind(res.Panic)
+		if strings.Contains(class, "reflect: index out of range") {
+			// reflect does not say which bound was crossed; the inputs do. Without this the open
+			// "negative index" class would hide an index >= len reaching reflect.
+			class += indexTag(c)
+		}
 		if !replaying {
 			record(class, c, res)
 		}
@@ -621,21 +642,19 @@ func opNatural(kind, op string) bool {
 	return false
 }
 
-func matrixOps() []cell {
-	var out []cell
+func matrixOps(r *vk.Run, b *builder) {
 	for _, op := range binops {
 		for _, l := range pool {
 			for _, rr := range pool {
 				natural := !l.Odd && !rr.Odd && l.Kind == rr.Kind && opNatural(l.Kind, op)
-				out = append(out, cell{mkCase("ops", fmt.Sprintf("<%%= %s %s %s %%>", l.spell(), op, rr.spell()), l, rr), !natural, "ops/" + op})
+				b.add(cell{mkCase("ops", fmt.Sprintf("<%%= %s %s %s %%>", l.spell(), op, rr.spell()), l, rr), !natural, "ops/" + op})
 			}
 		}
 	}
 	for _, x := range pool {
-		out = append(out, cell{mkCase("ops", fmt.Sprintf("<%%= !%s %%>", x.spell()), x), x.Odd || x.Kind != "bool", "ops/!"})
-		out = append(out, cell{mkCase("ops", fmt.Sprintf("<%%= !(%s == %s) %%>", x.spell(), x.spell()), x), x.Odd, "ops/!"})
+		b.add(cell{mkCase("ops", fmt.Sprintf("<%%= !%s %%>", x.spell()), x), x.Odd || x.Kind != "bool", "ops/!"})
+		b.add(cell{mkCase("ops", fmt.Sprintf("<%%= !(%s == %s) %%>", x.spell(), x.spell()), x), x.Odd, "ops/!"})
 	}
-	return out
 }
 
 func indexNatural(c, i *pv) bool {
@@ -651,8 +670,7 @@ func indexNatural(c, i *pv) bool {
 	return false
 }
 
-func matrixIndex(r *vk.Run) []cell {
-	var out []cell
+func matrixIndex(r *vk.Run, b *builder) {
 	reads := []string{"<%%= %s[%s] %%>", "<%%= %s[%s].F %%>", "<%%= %s[%s].Hello() %%>", "<%%= %s[%s][0] %%>", "<%%= if (%s[%s]) { %%>T<%% } %%>"}
 	conts := append([]*pv{}, pool...)
 	conts = append(conts, sub("pS", ".L"), sub("pS", ".M"), sub("sval", ".L"), sub("pS", ".Any"), sub("pS", ".P"))
@@ -660,10 +678,10 @@ func matrixIndex(r *vk.Run) []cell {
 		for _, i := range pool {
 			nt := !indexNatural(c, i)
 			for k, f := range reads {
-				out = append(out, cell{mkCase("index", fmt.Sprintf(f, c.spell(), i.spell()), c, i), nt, fmt.Sprintf("index/read%d", k)})
+				b.add(cell{mkCase("index", fmt.Sprintf(f, c.spell(), i.spell()), c, i), nt, fmt.Sprintf("index/read%d", k)})
 			}
 			for _, v := range six() {
-				out = append(out, cell{mkCase("index", fmt.Sprintf("<%% %s[%s] = %s %%>ok", c.spell(), i.spell(), v.spell()), c, i, v), true, "index/write"})
+				b.add(cell{mkCase("index", fmt.Sprintf("<%% %s[%s] = %s %%>ok", c.spell(), i.spell(), v.spell()), c, i, v), true, "index/write"})
 			}
 		}
 	}
@@ -678,10 +696,9 @@ func matrixIndex(r *vk.Run) []cell {
 				r.Exclude("self-containing-collection")
 				continue
 			}
-			out = append(out, cell{mkCase("index", fmt.Sprintf("<%% %s[%s] = %s %%><%%= %s[%s] %%>", c.spell(), i.spell(), v.spell(), c.spell(), i.spell()), c, i, v), true, "index/write-any"})
+			b.add(cell{mkCase("index", fmt.Sprintf("<%% %s[%s] = %s %%><%%= %s[%s] %%>", c.spell(), i.spell(), v.spell(), c.spell(), i.spell()), c, i, v), true, "index/write-any"})
 		}
 	}
-	return out
 }
 
 var members = []string{
@@ -691,8 +708,7 @@ var members = []string{
 	".L[0]", ".L[5]", `.M["k"]`, ".P.Hello()", ".Blk()", ".Blk() { %>x<% }", ".Hello() { %>x<% }", ".F.F", ".L.F", ".Len()", ".Hello().F", ".Hello", ".Add",
 }
 
-func matrixMember() []cell {
-	var out []cell
+func matrixMember(r *vk.Run, b *builder) {
 	for _, rcv := range pool {
 		if rcv.Spell != "" {
 			continue // member access on a literal does not parse
@@ -700,18 +716,16 @@ func matrixMember() []cell {
 		natural := !rcv.Odd && (rcv.Name == "sval" || rcv.Name == "pS")
 		for _, m := range members {
 			nt := !natural || strings.Contains(m, "Nope") || strings.Contains(m, "hidden")
-			out = append(out, cell{mkCase("member", fmt.Sprintf("<%%= %s%s %%>", rcv.spell(), m), rcv), nt, "member/" + m})
+			b.add(cell{mkCase("member", fmt.Sprintf("<%%= %s%s %%>", rcv.spell(), m), rcv), nt, "member/" + m})
 		}
-		out = append(out, cell{mkCase("member", fmt.Sprintf("<%% let y = %s.F %%><%%= if (%s.P) { %%>T<%% } %%>", rcv.spell(), rcv.spell()), rcv), !natural, "member/let+if"})
+		b.add(cell{mkCase("member", fmt.Sprintf("<%% let y = %s.F %%><%%= if (%s.P) { %%>T<%% } %%>", rcv.spell(), rcv.spell()), rcv), !natural, "member/let+if"})
 		for _, a := range pool {
-			out = append(out, cell{mkCase("member", fmt.Sprintf("<%%= %s.Add(%s) %%>", rcv.spell(), a.spell()), rcv, a), true, "member/.Add(x)"})
+			b.add(cell{mkCase("member", fmt.Sprintf("<%%= %s.Add(%s) %%>", rcv.spell(), a.spell()), rcv, a), true, "member/.Add(x)"})
 		}
 	}
-	return out
 }
 
-func matrixFor() []cell {
-	var out []cell
+func matrixFor(r *vk.Run, b *builder) {
 	its := append([]*pv{}, pool...)
 	for _, s := range []string{"range(1, 3)", "between(0, 3)", "until(2)", "until(intneg)", "groupBy(2, ints)", "groupBy(2, arr)", "groupBy(1, anys)", "fany(ints)", "fany(nil)", "fnilret()", "fpnilret()", "ufn(ints, 1)", "pS.L", "pS.M", "pS.P", "pS.T", "sval.Any", "anys[3]", "msa[str]", "[ints, nil, msi]"} {
 		its = append(its, &pv{Name: "x", Spell: s, Kind: "derived", Odd: true})
@@ -746,15 +760,14 @@ func matrixFor() []cell {
 			if it.Name == "x" {
 				c.Vars = trimVars(c)
 			}
-			out = append(out, cell{c, !natural, fmt.Sprintf("for/form%d", k)})
+			b.add(cell{c, !natural, fmt.Sprintf("for/form%d", k)})
 		}
 	}
 	for _, a := range pool {
-		for _, b := range pool {
-			out = append(out, cell{mkCase("for", fmt.Sprintf("<%%= for (k, v) in %s { %%><%%= for (j, w) in %s { %%><%%= v %%><%%= w %%><%% } %%><%% } %%>", a.spell(), b.spell()), a, b), true, "for/nested"})
+		for _, a2 := range pool {
+			b.add(cell{mkCase("for", fmt.Sprintf("<%%= for (k, v) in %s { %%><%%= for (j, w) in %s { %%><%%= v %%><%%= w %%><%% } %%><%% } %%>", a.spell(), a2.spell()), a, a2), true, "for/nested"})
 		}
 	}
-	return out
 }
 
 var identRe = regexp.MustCompile(`[A-Za-z_][A-Za-z0-9_]*`)
@@ -807,30 +820,37 @@ func callCase(matrix, callee string, args []*pv, block bool, deps ...*pv) Case {
 	return mkCase(matrix, body, append(append([]*pv{}, deps...), args...)...)
 }
 
-func matrixCall(r *vk.Run) []cell {
-	var out []cell
+func matrixCall(r *vk.Run, b *builder) {
 	callees := append([]*pv{}, pool...)
 	callees = append(callees, sub("pS", ".Add"), sub("pS", ".Var"), sub("pS", ".Fn"), sub("sval", ".Fn"), sub("szero", ".Fn"), sub("pS", ".PHello"), sub("nilpS", ".PHello"), sub("pS", ".Blk"), sub("pS", ".F"), sub("anys", "[0]"))
 	lists := argLists(six(), 3)
 	for _, cal := range callees {
 		for _, args := range lists {
 			for _, block := range []bool{false, true} {
-				out = append(out, cell{callCase("call", cal.spell(), args, block, cal), true, fmt.Sprintf("call/%d args", len(args))})
+				b.add(cell{callCase("call", cal.spell(), args, block, cal), true, fmt.Sprintf("call/%d args", len(args))})
 			}
 		}
 		for _, a := range pool {
-			out = append(out, cell{callCase("call", cal.spell(), []*pv{a}, false, cal), true, "call/1 arg, whole pool"})
-			out = append(out, cell{callCase("call", cal.spell(), []*pv{P("str"), a}, false, cal), true, "call/2 args, whole pool"})
-			out = append(out, cell{callCase("call", cal.spell(), []*pv{P("int"), a}, false, cal), true, "call/2 args, whole pool"})
+			b.add(cell{callCase("call", cal.spell(), []*pv{a}, false, cal), true, "call/1 arg, whole pool"})
+			b.add(cell{callCase("call", cal.spell(), []*pv{P("str"), a}, false, cal), true, "call/2 args, whole pool"})
+			b.add(cell{callCase("call", cal.spell(), []*pv{P("int"), a}, false, cal), true, "call/2 args, whole pool"})
+		}
+	}
+	if r.Thorough() { // two arguments, both from the whole pool
+		for _, cal := range callees {
+			for _, a := range pool {
+				for _, a2 := range pool {
+					b.add(cell{callCase("call", cal.spell(), []*pv{a, a2}, false, cal), true, "call/2 args, pool x pool"})
+				}
+			}
 		}
 	}
 	// calls whose result is used: chained, indexed, as operand
 	for _, cal := range pool {
 		for _, f := range []string{"<%%= %s().F %%>", "<%%= %s() + 1 %%>", "<%%= %s()[0] %%>", "<%%= if (%s()) { %%>T<%% } %%>", "<%% let y = %s() %%><%%= y %%>", "<%%= fany(%s) %%>", "<%%= fany(%s)() %%>", "<%%= len(%s()) %%>"} {
-			out = append(out, cell{mkCase("call", fmt.Sprintf(f, cal.spell()), cal, P("fany")), true, "call/result used"})
+			b.add(cell{mkCase("call", fmt.Sprintf(f, cal.spell()), cal, P("fany")), true, "call/result used"})
 		}
 	}
-	return out
 }
 
 func helperNames() []string {
@@ -842,32 +862,40 @@ func helperNames() []string {
 	return hs
 }
 
-func matrixHelper(r *vk.Run) []cell {
-	var out []cell
+func matrixHelper(r *vk.Run, b *builder) {
 	l2 := argLists(pool, 2)
 	l3 := argLists(eight(), 3)
+	if r.Thorough() { // three arguments from 24 kinds
+		var more []*pv
+		for i, p := range pool {
+			if i%4 == 0 {
+				more = append(more, p)
+			}
+		}
+		l3 = argLists(more, 3)
+	}
 	for _, h := range helperNames() {
 		for _, args := range l2 {
-			out = append(out, cell{callCase("helper", h, args, false), true, "helper/" + h})
+			b.add(cell{callCase("helper", h, args, false), true, "helper/" + h})
 			if len(args) <= 1 {
-				out = append(out, cell{callCase("helper", h, args, true), true, "helper/" + h})
+				b.add(cell{callCase("helper", h, args, true), true, "helper/" + h})
 			}
 		}
 		for _, args := range l3 {
 			if len(args) == 3 {
-				out = append(out, cell{callCase("helper", h, args, false), true, "helper/" + h})
+				b.add(cell{callCase("helper", h, args, false), true, "helper/" + h})
 			}
 		}
 		for _, a := range eight() {
-			for _, b := range eight() {
-				out = append(out, cell{callCase("helper", h, []*pv{a, b}, true), true, "helper/" + h})
+			for _, a2 := range eight() {
+				b.add(cell{callCase("helper", h, []*pv{a, a2}, true), true, "helper/" + h})
 			}
 		}
 	}
 	// option maps with wrong-typed values
 	for _, a := range pool {
-		for _, b := range pool {
-			out = append(out, cell{mkCase("helper", fmt.Sprintf(`<%%= truncate(strlong, {"size": %s, "trail": %s}) %%>`, a.spell(), b.spell()), P("strlong"), a, b), true, "helper/truncate options"})
+		for _, a2 := range pool {
+			b.add(cell{mkCase("helper", fmt.Sprintf(`<%%= truncate(strlong, {"size": %s, "trail": %s}) %%>`, a.spell(), a2.spell()), P("strlong"), a, a2), true, "helper/truncate options"})
 		}
 		for _, f := range []string{
 			`<%%= truncate(strlong, {"size": %s}) %%>`, `<%%= truncate(strlong, {"trail": %s}) %%>`, `<%%= truncate(strlong, {"size": 3, "trail": %s}) %%>`,
@@ -885,14 +913,12 @@ func matrixHelper(r *vk.Run) []cell {
 					vs = append(vs, P(d))
 				}
 			}
-			out = append(out, cell{mkCase("helper", fmt.Sprintf(f, a.spell()), vs...), true, "helper/option maps, blocks, composition"})
+			b.add(cell{mkCase("helper", fmt.Sprintf(f, a.spell()), vs...), true, "helper/option maps, blocks, composition"})
 		}
 	}
-	return out
 }
 
-func matrixStmt() []cell {
-	var out []cell
+func matrixStmt(r *vk.Run, b *builder) {
 	forms := []string{
 		"<%%= %s %%>", "<%% %s %%>", "<%% let y = %s %%><%%= y %%>", "<%% let y = 1 %%><%% y = %s %%><%%= y %%>", "<%% %[1]s = %[1]s %%>",
 		"<%%= if (%s) { %%>T<%% } else { %%>F<%% } %%>", "<%%= if (%s == nil) { %%>T<%% } %%>", "<%%= if (false) { %%>a<%% } else if (%s) { %%>T<%% } %%>",
@@ -913,10 +939,9 @@ func matrixStmt() []cell {
 			if strings.Contains(f, "= 1 %%>ok") && x.Mk == nil && x.Prelude == "" {
 				continue // assignment to a literal is a parse-level matter
 			}
-			out = append(out, cell{mkCase("stmt", fmt.Sprintf(f, x.spell()), vs...), x.Odd, fmt.Sprintf("stmt/form%d", k)})
+			b.add(cell{mkCase("stmt", fmt.Sprintf(f, x.spell()), vs...), x.Odd, fmt.Sprintf("stmt/form%d", k)})
 		}
 	}
-	return out
 }
 
 // ---- random well-formed programs ------------------------------------------------------------------------
@@ -1287,11 +1312,46 @@ func setup(t *testing.T) *vk.Run {
 
 func TestReplay(t *testing.T) { setup(t).ReplayEnv() }
 
+// builder enumerates a matrix; only the cells of this shard are kept in memory.
+type builder struct {
+	r     *vk.Run
+	n     int64
+	cells []cell
+}
+
+func (b *builder) add(c cell) {
+	if b.r.Mine(b.n) {
+		b.cells = append(b.cells, c)
+	}
+	b.n++
+}
+
 // runCells evaluates one matrix in parallel; failures are collected per class and reported at the end.
-func runCells(r *vk.Run, name string, cells []cell) {
-	r.Subspace(name, int64(len(cells)), true)
-	r.Parallel(int64(len(cells)), 0, func(i int64) {
-		c := cells[i]
+func runCells(r *vk.Run, name string, build func(*vk.Run, *builder)) {
+	b := &builder{r: r}
+	build(r, b)
+	r.Subspace(name, b.n, true)
+	cells := b.cells
+	var next int64
+	var wg sync.WaitGroup
+	for w := 0; w < runtime.GOMAXPROCS(0); w++ {
+		wg.Add(1)
+		go func() {
+			defer wg.Done()
+			for {
+				i := atomic.AddInt64(&next, 1) - 1
+				if i >= int64(len(cells)) {
+					return
+				}
+				runCell(r, cells[i])
+			}
+		}()
+	}
+	wg.Wait()
+}
+
+func runCell(r *vk.Run, c cell) {
+	{
 		f := check(r, c.c, c.nt, c.sub)
 		if f == nil {
 			return
@@ -1303,7 +1363,7 @@ func runCells(r *vk.Run, name string, cells []cell) {
 		if !strings.Contains(f.Class, ": ") { // not a panic class: report directly
 			r.Check(f)
 		}
-	})
+	}
 }
 
 func TestProp(t *testing.T) {
@@ -1311,13 +1371,13 @@ func TestProp(t *testing.T) {
 	defer r.Finish()
 	r.ReplayCommitted()
 
-	runCells(r, "ops: 13 binary operators x pool x pool, ! x pool", matrixOps())
-	runCells(r, "index: (pool + derived containers) x pool x {5 read shapes, write of 6 kinds} + 15 natural pairs x whole pool assigned", matrixIndex(r))
-	runCells(r, "member: pool x 50 member shapes + pool x .Add(pool)", matrixMember())
-	runCells(r, "for: (pool + 20 derived iterables) x 13 loop shapes + pool x pool nested", matrixFor())
-	runCells(r, "call: (pool + 10 derived callees) x 0-3 arguments from 6 kinds x block/no block + 1-2 arguments from the whole pool + results used", matrixCall(r))
-	runCells(r, "helper: every built-in x 0-2 arguments from the whole pool (+block for 0-1) + 3 arguments from 8 kinds + 2 of 8 with block + option maps/composition x pool", matrixHelper(r))
-	runCells(r, "stmt: pool x 23 statement shapes", matrixStmt())
+	runCells(r, "ops: 13 binary operators x pool x pool, ! x pool", matrixOps)
+	runCells(r, "index: (pool + derived containers) x pool x {5 read shapes, write of 6 kinds} + 15 natural pairs x whole pool assigned", matrixIndex)
+	runCells(r, "member: pool x 50 member shapes + pool x .Add(pool)", matrixMember)
+	runCells(r, "for: (pool + 20 derived iterables) x 13 loop shapes + pool x pool nested", matrixFor)
+	runCells(r, "call: (pool + 10 derived callees) x 0-3 arguments from 6 kinds x block/no block + 1-2 arguments from the whole pool + results used", matrixCall)
+	runCells(r, "helper: every built-in x 0-2 arguments from the whole pool (+block for 0-1) + 3 arguments from 8 kinds + 2 of 8 with block + option maps/composition x pool", matrixHelper)
+	runCells(r, "stmt: pool x 23 statement shapes", matrixStmt)
 
 	r.Rapid("random", r.Pick(20000, 150000), func(t *rapid.T) *vk.Fail {
 		c := genProgram(t)
